@@ -37,6 +37,26 @@ T={
           "tbox_alarm_test 1/1 pass with the change; demo_c20_1.cpp (virtual wall clock) sees callbacks one second early with it, passes without"),
  'c20_2':('C20',"current time (or the last delivered instant on a re-enable from the callback) exactly equal to the configured time of day of a one-shot alarm (>= became >)",
           "tbox_alarm_test 1/1 pass with the change; demo_c20_2.cpp sees 25 wrong answers and 100000 callbacks for one instant with it, passes without"),
+ 'c02_1':('C02',"at least 5 pending timers and disabling one that is neither the heap front nor a leaf and whose children have smaller deadlines than the last element (deleteTimer replaces it by the last element and only sifts up)",
+          "TimerEvent.*/CommonLoop.* 28/28 pass with the change; demo_c02_1.cpp sees timers fire out of deadline order and up to 59 ms late with it, passes without"),
+ 'c02_2':('C02',"the loop waking a full period or more late while a persistent timer is armed (re-arm guard resets the deadline to now+interval, dropping the missed periods)",
+          "TimerEvent.*/CommonLoop.* 28/28 pass with the change; demo_c02_2.cpp counts 16 instead of 20 invocations with it, passes without"),
+ 'c03_1':('C03',"a callback that removes a sibling on the same descriptor and enables at least as many others (dispatch skips the liveness search while the subscriber list has not shrunk); both back-ends",
+          "FdEvent.* 8/8 pass with the change; demo_c03_1.cpp sees a callback on a disabled sibling and a segfault in the destroy variant with it, passes without"),
+ 'c03_2':('C03',"epoll back-end, a one-shot event sharing a descriptor with a sibling of a different mask, and a pass in which only the sibling's condition is ready (one-shot disarms itself before the mask test)",
+          "FdEvent.* 8/8 pass with the change; demo_c03_2.cpp: on epoll the one-shot write event never fires with it, passes without"),
+ 'c06_1':('C06',"a send() issued from inside the send-complete callback (write event disabled after the callback instead of before it)",
+          "BufferedFd.* 3/3 pass with the change; demo_c06_1.cpp receives 1267840 of 8388608 bytes with it, passes without"),
+ 'c06_2':('C06',"a receive callback that consumed only a small prefix, then a burst larger than the free tail whose spill exceeds the read offset (Buffer growth copies the unconsumed bytes to offset 0 but keeps the indices)",
+          "Buffer.* 15/15 pass with the change; demo_c06_2.cpp fails 8 of 12 sessions with it, passes without"),
+ 'c12_1':('C12',"method DELETE and a segment boundary 1-5 bytes into the method name at the start of a request (enum loop bound excludes the last method from the prefix test)",
+          "tbox_http_test 39/39 pass with the change; demo_c12_1.cpp: 6 of 774 segmentations differ with it, 0 without"),
+ 'c12_2':('C12',"at least 4 requests in flight completing in an order that leaves a gap among the parked responses (e.g. 1,3,0,2): flush loop takes the map's next element instead of looking up the next index",
+          "tbox_http_test 39/39 pass with the change; demo_c12_2.cpp: orders 1302 and 3102 produce r0 r1 r3 then silence with it, 0 violations without"),
+ 'c14_1':('C14',"a request issued from inside another request's timeout callback and itself unanswered (TimeoutMonitor iterates the expiring slot in place and clears it afterwards)",
+          "tbox_jsonrpc_test 20/20 pass with the change; demo_c14_1.cpp: retry callback runs 0 times with it, passes without"),
+ 'c14_2':('C14',"a batch containing a nested array (index incremented through a reference into a vector that was reallocated by the push of the nested array)",
+          "tbox_jsonrpc_test 20/20 pass with the change; demo_c14_2.cpp: messages of nested batches delivered two or more times with it, passes without"),
 }
 res={}
 for pid in set(v[0] for v in T.values()):
